@@ -225,14 +225,15 @@ def gen_poly(rng, T, depth, vars_):
     ops = ['plus', 'plus', 'times']
     if T != NAT:
         ops += ['minus', 'uminus']
-    if rng.random() < 0.15:
+    if rng.random() < 0.15 and T != NAT:
         ops = ['power']
     op = rng.choice(ops)
     g = lambda: gen_poly(rng, T, depth - 1, vars_)
     if op == 'uminus':
         return ('comb', A.c('uminus', S.fun(T, T)), g())
     if op == 'power':
-        return S.mk_comb(A.c('power', S.funs(T, NAT, T)), rng.choice(vars_), A.num(NAT, rng.choice([2, 3])))
+        base = rng.choice(vars_) if rng.random() < 0.6 else gen_poly(rng, T, 1, vars_)
+        return S.mk_comb(A.c('power', S.funs(T, NAT, T)), base, A.num(NAT, rng.choice([0, 1, 2, 2, 3])))
     return A.binop(op, T, g(), g())
 
 
@@ -264,6 +265,14 @@ def rearrange(rng, s, T, steps):
         opts.append(lambda: A.binop('plus', T, t, A.num(T, 0)))
         opts.append(lambda: A.binop('times', T, t, A.num(T, 1)))
         opts.append(lambda: A.binop('times', T, A.num(T, 1), t))
+        u = rng.choice([A.num(T, 0), A.num(T, 2)] + [('var', n_, T) for n_ in ('x', 'y')])
+        zero_like = u if T == NAT else A.binop('minus', T, u, u)                 # u - u = 0 (int/real)
+        if T == NAT:
+            zero_like = A.binop('times', T, A.num(T, 0), u)
+        if T != NAT:      # nat.norm_full only covers plus and times: powers are outside its domain
+            opts.append(lambda: A.binop('times', T, t, S.mk_comb(A.c('power', S.funs(T, NAT, T)), zero_like, A.num(NAT, 0))))   # * 0^0 = * 1
+            opts.append(lambda: A.binop('plus', T, t, S.mk_comb(A.c('power', S.funs(T, NAT, T)), zero_like, A.num(NAT, 2))))    # + 0^2 = + 0
+        opts.append(lambda: A.binop('plus', T, t, zero_like))
         if T != NAT and is_op(t, 'minus'):
             a, b = args
             opts.append(lambda: A.binop('plus', T, a, ('comb', A.c('uminus', S.fun(T, T)), b)))
